@@ -97,7 +97,7 @@ func evalMutated(r *ev.Run, m mutation, stream []byte, keys []ech.Key, goKeys []
 }
 
 func Run(r *ev.Run) {
-	r.Rule("fault enumeration (E1): base tuples = 3 AEADs x inner with/without outer-extension compression x ECH extension first/middle/last x session id 0/32 bytes, sealed by the reference sender; per base: EVERY single-bit flip of the outer ClientHello handshake message, every truncation of enc and of payload (consistent length prefixes), enc replaced by another valid point, wrong private key (same id), config differing in one byte (wrong info), suite id altered in the extension, suite absent from the config, wrong config id, payload sealed at sequence number 1, payload sealed for another outer hello, 1..32 zero/non-zero bytes inserted after the extensions block or inside the ECH extension after the payload, 1..3 bytes inside the extensions block after the last extension, an extension added/removed after sealing, hellos sealed consistently but naming a config id the server does not hold or a suite its config does not list, payloads forged from public data for 7 low-order X25519 points as enc. distinct = distinct (stream, key set) pairs")
+	r.Rule("fault enumeration (E1): base tuples = 3 AEADs x inner with/without outer-extension compression x ECH extension first/middle/last x session id 0/32 bytes, sealed by the reference sender; per base: EVERY single-bit flip of the outer ClientHello handshake message, every truncation of enc and of payload (consistent length prefixes), enc replaced by another valid point, wrong private key (same id), config differing in one byte (wrong info), suite id altered in the extension, suite absent from the config, wrong config id, payload sealed at sequence number 1, payload sealed for another outer hello, 1..32 zero/non-zero bytes inserted after the extensions block or inside the ECH extension after the payload, 1..3 bytes inside the extensions block after the last extension, a trailer inside the ECH extension sealed by a client that mimics the implementation's own AAD construction, an extension added/removed after sealing, hellos sealed consistently but naming a config id the server does not hold or a suite its config does not list, payloads forged from public data for 7 low-order X25519 points as enc. distinct = distinct (stream, key set) pairs")
 	r.Assume("reference sender validated against crypto/tls on every run", "bit flips cover the handshake message (header+body), not the 5-byte record header, which is not authenticated by ECH")
 	key := echx.NewKey("c02", 42, echx.AllSuites, "public.example")
 	if err := c03.SelfValidate(echx.NewKey("c03", 7, echx.AllSuites, "public.example")); err != nil {
@@ -225,6 +225,33 @@ func Run(r *ev.Run) {
 				h := built.Outer.Clone()
 				h.Trailer = bytes.Repeat([]byte{fill}, n)
 				jobs = append(jobs, job{mutation{b, fmt.Sprintf("trailing-bytes-after-extensions-%02x", fill), n}, h.Record(), keys})
+			}
+		}
+		// bytes after the payload inside the ECH extension, with the payload sealed by a client that KNOWS how this implementation
+		// builds its AAD (it zeroes the last len(payload) bytes of the extension, wherever the payload is): the ciphertext of an
+		// AEAD does not depend on the AAD, so such a client can compute ciphertext, then that AAD, then the tag. If the server
+		// accepts this hello, the trailing bytes are outer-hello bytes that no authentication covers
+		for _, tl := range []int{1, 3, 16} {
+			sl2, _ := tlsref.NewSealer(key.Cfg, s.Suite, hpkeref.DetKey("eph:"+s.EphLabel), nil)
+			inner := s.InnerBase.Clone()
+			inner.Exts = s.EncInner
+			encInner := tlsref.EncodeInner(inner, s.Padding)
+			trailer := tlsref.DetBytes("ech-ext-trailer", tl)
+			seq := sl2.Ctx.Seq
+			ct := sl2.Ctx.Seal(nil, encInner)[:len(encInner)]
+			sl2.Ctx.Seq = seq
+			full := tlsref.ECHOuter(1, b.AEAD, 42, sl2.Enc, make([]byte, len(encInner)+16)).Data
+			hdr := full[:len(full)-(len(encInner)+16)]
+			o := s.Outer.Clone()
+			o.Exts[s.EchIdx] = tlsref.Ext{Type: tlsref.ExtECH, Data: append(append(append([]byte{}, hdr...), ct[:tl]...), make([]byte, len(encInner)+16)...)}
+			payload2 := sl2.Ctx.Seal(o.Body(), encInner)
+			for _, flip := range []int{-1, 0, tl - 1} {
+				t2 := append([]byte{}, trailer...)
+				if flip >= 0 {
+					t2[flip] ^= 0x01
+				}
+				o.Exts[s.EchIdx] = tlsref.Ext{Type: tlsref.ExtECH, Data: append(append(append([]byte{}, hdr...), payload2...), t2...)}
+				jobs = append(jobs, job{mutation{b, "ech-extension-trailer-sealed-to-the-implementations-aad", tl*10 + flip + 1}, o.Record(), keys})
 			}
 		}
 		// 1..3 bytes appended INSIDE the extensions block after the last extension (too few to form an extension header; block
